@@ -77,8 +77,50 @@ func runC07(c *Ctx) {
 
 	summarized := []Ref{{"handshake", "Machine", "processPayload"}, {"handshake", "Machine", "validateCert"}, {"handshake", "Machine", "requireComplete"}}
 	fromSummarized := func(v ssa.Value) bool { return derivesFrom(v, sliceLocal, isCallTo(summarized...)) }
+	// helpers the tabled functions or ProcessPacket delegate to are summarised as well when every error return of theirs passes
+	// failed=true or forwards an already summarised error (least fixpoint; they add no obligations of their own: a helper that
+	// does not qualify is simply not trusted, and the return forwarding its error is then judged on its own path)
+	if pp := c.funcQuiet(Ref{"handshake", "Machine", "ProcessPacket"}); pp != nil {
+		tabled := map[string]bool{"ProcessPacket": true, "Initiate": true}
+		for _, r := range summarized {
+			tabled[r.Name] = true
+		}
+		for changed := true; changed; {
+			changed = false
+			for _, fn := range c.moduleFuncs() {
+				if fn.Pkg != pp.Pkg || fn.Parent() != nil || tabled[fn.Name()] || fn.Signature.Recv() == nil {
+					continue
+				}
+				rn := recvNamed(fn.Signature.Recv().Type())
+				if rn == nil || rn.Obj() != mach.Obj() {
+					continue
+				}
+				idx := errResultIndex(fn)
+				if idx < 0 {
+					continue
+				}
+				rets := errorReturns(fn, idx)
+				ok := len(rets) > 0
+				for _, ret := range rets {
+					if fromSummarized(retResult(ret, idx)) {
+						continue
+					}
+					if bad, _ := c.avoidsCut(fn, nil, ret, setsFailed); bad {
+						ok = false
+					}
+				}
+				if ok {
+					tabled[fn.Name()] = true
+					summarized = append(summarized, Ref{"handshake", "Machine", fn.Name()})
+					c.Note("C07: helper %s summarised: every error return marks the machine failed", fnName(fn))
+					changed = true
+				}
+			}
+		}
+	}
+	nTabled := 3
 	// callee summaries: every error return passes failed=true (or forwards a summarized callee's error)
-	for _, r := range summarized {
+	for _, r := range summarized[:nTabled] {
 		fn := c.Func(r)
 		if fn == nil {
 			continue
